@@ -142,6 +142,15 @@ func (e *Executor) traverse(rt RequestTask) error {
 			// tell the loader we're online now
 			rt.ReconciledLoader.SetRemoteOnline(true)
 
+			// if the request was cancelled in the meantime nobody will ever take the loader
+			// offline again, so do not start waiting on the remote
+			select {
+			case <-rt.Ctx.Done():
+				rt.ReconciledLoader.SetRemoteOnline(false)
+				return ipldutil.ContextCancelError{}
+			default:
+			}
+
 			if err := e.startRemoteRequest(rt); err != nil {
 				return err
 			}
